@@ -29,6 +29,7 @@ import (
 	"os/exec"
 	"path/filepath"
 	"runtime"
+	"runtime/debug"
 	"sort"
 	"strconv"
 	"strings"
@@ -188,6 +189,7 @@ func init() {
 }
 
 var (
+	aborted     bool // the reference counting protocol was violated: the pools cannot be trusted any more
 	leaked      bool // a scenario missed its deadline: goroutines of it may still run
 	traceStats  struct{ traces, events, buffers, rejected, oracle int }
 	isRaceChild = os.Getenv("VERIF_C15_RACE") != ""
@@ -223,10 +225,19 @@ func runInst(c *core.Ctx, in inst) {
 	bucket += fmt.Sprintf("/P=%d", in.P)
 	key, _ := json.Marshal(in)
 
+	if aborted {
+		return
+	}
 	old := runtime.GOMAXPROCS(in.P)
 	var rec *recorder
+	gcOld := 100
 	if in.Traced {
 		runtime.GC() // let garbage of earlier runs go before recording starts
+		// no collection during the recorded run: finalizers (which close readers
+		// and release their pages) would add events of objects of earlier runs,
+		// and a protocol violation makes them panic outside any recover
+		gcOld = debug.SetGCPercent(-1)
+		debug.SetMemoryLimit(6 << 30)
 		rec = newRecorder()
 		parquet.VerifSetTrace(rec.hook)
 	}
@@ -277,8 +288,13 @@ func runInst(c *core.Ctx, in inst) {
 	} else {
 		c.Case(bucket, string(key), false)
 	}
-	if in.Traced && out != nil {
-		validateTrace(c, in, rec)
+	if in.Traced {
+		if out != nil && validateTrace(c, in, rec) {
+			aborted = true
+			c.Note("the reference counting protocol was violated in %s: buffers are shared by unrelated pages from here on, the remaining scenarios are skipped (garbage collection stays off so that finalizers do not crash the process)", bucket)
+			return
+		}
+		debug.SetGCPercent(gcOld)
 	}
 }
 
@@ -383,7 +399,7 @@ func verdict(line string) string {
 	return line
 }
 
-func validateTrace(c *core.Ctx, in inst, rec *recorder) {
+func validateTrace(c *core.Ctx, in inst, rec *recorder) (rejected bool) {
 	rec.mu.Lock()
 	ev := rec.ev
 	raw := rec.ids
@@ -426,6 +442,7 @@ func validateTrace(c *core.Ctx, in inst, rec *recorder) {
 				in.Scenario, in.P, idx, names[ev[idx]], ids[idx], state, len(ev), len(num)),
 			replayOf(in, map[string]any{"buffer": ids[idx], "rejected_event_index": idx, "events_of_the_buffer_1get_2ref_3unref_4put": own}))
 	}
+	rejected = idx >= 0
 	if !c.HasOracle() {
 		return
 	}
@@ -511,6 +528,7 @@ func validateTrace(c *core.Ctx, in inst, rec *recorder) {
 			c.Mismatch("corr:C15.buf", core.Trunc(tb.String(), 1500), impl, m, replayOf(in, map[string]any{"buffer": b}))
 		}
 	}
+	return
 }
 
 // ---------------------------------------------------------------------------
@@ -1481,7 +1499,7 @@ func scenC(rng *rand.Rand, p, scale int) *scenOut {
 						errs[i] = e
 						return
 					}
-					if concurrent && r.Intn(3) == 0 {
+					if r.Intn(3) == 0 && concurrent {
 						runtime.Gosched()
 					}
 				}
@@ -1607,7 +1625,7 @@ func scenD(rng *rand.Rand, p, scale int) *scenOut {
 						return
 					}
 					j += m
-					if concurrent && r.Intn(3) == 0 {
+					if r.Intn(3) == 0 && concurrent {
 						runtime.Gosched()
 					}
 				}
@@ -2613,7 +2631,7 @@ func run(c *core.Ctx) {
 	procs := []int{1, 2, 4, 16}
 	rounds := c.N(1, 5)
 	if isRaceChild {
-		scale, procs, rounds = 0, []int{2, 4}, 1
+		scale, procs, rounds = 0, []int{2, 4}, 2
 	}
 	var raceCh chan raceOutcome
 	if !isRaceChild && os.Getenv("VERIF_C15_NORACE") == "" {
